@@ -37,7 +37,7 @@ pub fn silence_panics() {
     std::panic::set_hook(Box::new(|info| {
         let in_library = info.location().map(|l| l.file().starts_with("/repo/") || l.file().contains("/rustc/") || l.file().contains("library/")).unwrap_or(false);
         if !in_library {
-            eprintln!("HARNESS PANIC: {info}");
+            eprintln!("HARNESS PANIC: {info}\n{}", std::backtrace::Backtrace::force_capture());
         }
     }));
 }
